@@ -344,10 +344,14 @@ def run_sympy(ctx, rng, n):
                 s["terms"][0][1] = [2 ** 53 + 1]
         p = gen.materialize(s)
         ctx.evaluations += 1
+        # the export is the same under every display setting (D61: it evaluated str(poly), display signs included)
+        opts = [{}, {}, {"display_exponent": "^"}, {"display_multiply": " "}, {"display_multiply": "", "display_inverse": False},
+                {"display_multiply": "·", "display_exponent": "^", "display_graded": False}][i % 6]
         try:
-            back = numpoly.polynomial(numpoly.to_sympy(p))
+            with numpoly.global_options(**opts):
+                back = numpoly.polynomial(numpoly.to_sympy(p))
         except Exception as err:  # noqa: BLE001
-            ctx.fail({"kind": "sympy", "a": s}, f"to_sympy round trip raised {type(err).__name__}: {str(err)[:120]}", ["sympy", "raises"])
+            ctx.fail({"kind": "sympy", "a": s, "opts": opts}, f"to_sympy round trip under {opts} raised {type(err).__name__}: {str(err)[:120]}", ["sympy", "raises"])
             continue
         if den_of_struct(poly_to_struct(back)) != den_of_struct(s):
             ctx.fail({"kind": "sympy", "a": s}, f"to_sympy -> polynomial gives {back}, was {p}", ["sympy", "value"])
